@@ -518,7 +518,95 @@ def _fault_shard(args):
 
 
 # -- entry points ---------------------------------------------------------------------
+# -- family 'several-bad': more than one bad row, modes that go on after a rejection -------------------------------
+def _several_rows(header, r, bad_positions):
+    rows = []
+    for number in range(1, r + 1):
+        if number in bad_positions:
+            rows.append(["not-a-number", "row %d" % number])
+        elif number <= header:
+            rows.append(["id", "title %d" % number])
+        else:
+            rows.append([str(number), "row %d" % number])
+    return rows
+
+
+def check_several(sub, case):
+    """Tables with two or three bad rows read in 'yield' and 'continue' mode: an earlier rejection must not move the
+    validation window (the limit counts rows of the input, not accepted rows)."""
+    import io
+
+    from vlib import cidlib
+
+    header, r, bad, limit = case["header"], case["rows"], set(case["bad"]), case["limit"]
+    rows = _several_rows(header, r, bad)
+    text = "".join(",".join(row) + "\n" for row in rows)
+    cid_rows_ = [["D", "Format", "Delimited"], ["D", "Header", str(header)],
+                 ["F", "id", "", "", "", "Integer", "0...99"], ["F", "title", "", "", "", "Text", ""]]
+    for mode in ("yield", "continue"):
+        cid = cidlib.load_cid(cid_rows_)
+        try:
+            items = list(cutplace.rows(cid, io.StringIO(text, newline=""), on_error=mode, validate_until=limit))
+        except Exception as error:
+            _fail(sub, "C07|several-bad|%s|%s" % (mode, type(error).__name__), case,
+                  "cutplace.rows(on_error=%r, validate_until=%r) raised %s: %s" % (mode, limit, type(error).__name__, error))
+            continue
+        sub.evaluations += 1
+        expected = []
+        for number, row in enumerate(rows, 1):
+            if number <= header:
+                continue
+            reported = number in bad and (limit is None or number <= limit)
+            if reported:
+                if mode == "yield":
+                    expected.append("error")
+            else:
+                expected.append(row)
+        actual = ["error" if isinstance(i, Exception) else i for i in items]
+        if actual != expected:
+            beyond = [n for n in sorted(bad) if limit is not None and n > limit]
+            what = "bad-row-beyond-limit-reported" if beyond and len(actual) != len(expected) or (
+                beyond and any(a == "error" and e != "error" for a, e in zip(actual, expected))) else "differs"
+            _fail(sub, "C07|several-bad|%s|%s" % (mode, what), case,
+                  "header %d, bad rows %s, limit %r, mode %s: delivered %r, expected %r" % (
+                      header, sorted(bad), limit, mode, actual, expected))
+
+
+def _several_cases(max_rows):
+    import itertools
+
+    cases = []
+    for header in (0, 1, 2):
+        for r in range(2, max_rows + 1):
+            for count in (2, 3):
+                for bad in itertools.combinations(range(1, r + 1), count):
+                    for limit in [None] + list(range(0, r + 2)):
+                        cases.append({"family": "several-bad", "header": header, "rows": r, "bad": list(bad),
+                                      "limit": limit})
+    return cases
+
+
+def _several_shard(args):
+    index, count, cases = args
+    sub = Sub("several-bad")
+    evals = nontrivial = 0
+    for case in cases[index::count]:
+        before = sub.evaluations
+        check_several(sub, case)
+        evals += sub.evaluations - before
+        sub.evaluations = before
+        limit = case["limit"]
+        if limit is not None and any(n <= limit for n in case["bad"]) and any(n > limit for n in case["bad"]):
+            nontrivial += 1
+    sub.bulk(evals, nontrivial, {"several-bad": len(cases[index::count])})
+    if index == 0:
+        sub.samples.append(cases[len(cases) // 2])
+    return sub
+
+
 def run(ctx):
+    several = _several_cases(ctx.n(6, 7))
+    ctx.par(_several_shard, [(i, ctx.workers, several) for i in range(ctx.workers)])
     max_rows = ctx.n(MAX_ROWS, MAX_ROWS + 2)  # thorough goes beyond the stated scope (r up to 8)
     specs = table_specs("delimited", max_rows) + table_specs("fixed", max_rows)
     # spreadsheet files: same tables; quick takes every stride-th one, the start depends on the seed
@@ -538,6 +626,9 @@ def run(ctx):
 
 
 def replay(sub, case):
+    if case.get("family") == "several-bad":
+        check_several(sub, case)
+        return
     if case.get("family") == "fault":
         observe_fault(sub, case)
         return
